@@ -291,9 +291,19 @@ def run_case(case, ctx):
         want = refops.reshape_ff(A, new_shape)
         if A.size <= 24:
             ctx.check(same(want, refops.loops_reshape_ff(A, new_shape)), "reference", "REFERENCE", "reshape reference disagrees with loops")
+        import zlib
+
+        # how the new shape is written: tuple, list, integer array, or a one-shot iterable (iterator, generator, map): all documented
+        form = ["tuple", "list", "array", "iterator", "generator", "map"][zlib.crc32(repr((shape, new_shape)).encode()) % 6]
+        ctx.feat(shape_form=form)
+
+        def shape_arg():
+            return {"tuple": lambda: tuple(new_shape), "list": lambda: list(new_shape), "array": lambda: np.array(new_shape, dtype=int),
+                    "iterator": lambda: iter(list(new_shape)), "generator": lambda: (int(x_) for x_ in new_shape),
+                    "map": lambda: map(int, [str(x_) for x_ in new_shape])}[form]()
         for name, H in (("tensor", T), ("sptensor", S)):
             op = f"{name}.reshape"
-            P = ctx.must(op, H.reshape, new_shape)
+            P = ctx.must(op, H.reshape, shape_arg())
             ctx.structural(P, op)
             ctx.check(tuple(P.shape) == new_shape and same(denote(P), want), op, "WRONG",
                       lambda: f"{op}({new_shape}) gives {denote(P).tolist()} want {want.tolist()}")
